@@ -36,7 +36,7 @@ def run(tier):
     b = hb.masked_bins("masked", "masked.cpp", cfgs(tier))
     ev.configs = [n for n, _ in b]
     q = tier == "quick"
-    plan = [("c10_words", 60000 if q else 120000, 100), ("c10_permute", 20000 if q else 60000, 100), ("c10_keys", 8000 if q else 20000, 100), ("c10_aead", 15000 if q else 60000, 100)]
+    plan = [("c10_words", 60000 if q else 600000, 100), ("c10_permute", 20000 if q else 300000, 100), ("c10_keys", 8000 if q else 100000, 100), ("c10_aead", 15000 if q else 300000, 100)]
     rcrun.run_rc(ev, b, plan, finding_key)
     return finish(ev)
 
